@@ -143,6 +143,10 @@ fn v1_extra(idx: u64, rng: &mut Rng, rec: &mut Recorder) {
                 return;
             }
             let mut line = body.into_bytes();
+            if line.starts_with(b"PROXY UNKNOWN ") && line.len() + 3 <= 107 && rng.chance(1, 3) {
+                // whatever ASCII byte directly before the CR
+                line.push(*rng.pick(b"\x00\x01\x08\x09\x0a\x0b\x0c\x0e\x0f\x1f\x7f\x0c\x0c !~"));
+            }
             line.push(b'\r');
             line.push(b);
             if rng.coin() {
